@@ -129,7 +129,9 @@ class HeldFunction(Function):
                 delta = context.now_ms - self._start_time_ms
                 if delta >= duration:
                     self._state = self.STATE_ON
-                self.pause_asap_eval()
+                    self.pause_asap_eval()
+                else:
+                    self.pause_asap_eval(self._start_time_ms + duration)
         else:
             self._state = self.STATE_OFF
             self.pause_asap_eval()
